@@ -168,6 +168,7 @@ Print Assumptions C13_evict_midlist_refuted.
     mp.cache / tl.list / tl.ready / tl.base found in the source by gen/gen_locks.go runs
     under the exclusive pool (or list) lock, except the listed getUnconfirmed insertion. *)
 Theorem C13_pool_writes_locked :
-  forallb Mempool.LockCheck.lock_ok Gen.Locks.pool_writes && Mempool.LockCheck.writers_present = true.
+  forallb Mempool.LockCheck.lock_ok Gen.Locks.pool_writes && Mempool.LockCheck.writers_present
+  && Mempool.LockCheck.reads_locked = true.
 Proof. exact Mempool.LockCheck.pool_writes_locked. Qed.
 Print Assumptions C13_pool_writes_locked.
